@@ -35,10 +35,32 @@ func randomItemGraph(r *hx.Rng, pool []*cx.G, maxN int) *cx.G {
 	}
 }
 
+// randomClasses draws surjections by rejection, which does not end for many classes on many
+// vertices: larger graphs get at most 6 classes (or n - few: nearly all singletons)
+func classesAnySize(r *hx.Rng, n int) [][]int {
+	if n <= 16 {
+		return randomClasses(r, n)
+	}
+	p := r.Perm(n)
+	k := 1 + r.Intn(6)
+	if r.Chance(1, 5) {
+		k = n - r.Intn(4)
+	}
+	cls := make([][]int, k)
+	for i, v := range p {
+		c := i
+		if i >= k {
+			c = r.Intn(k)
+		}
+		cls[c] = append(cls[c], v)
+	}
+	return cls
+}
+
 func itemClasses(r *hx.Rng, gr *cx.G) string {
 	switch r.Intn(4) {
 	case 0:
-		return cx.ClassesString(randomClasses(r, gr.N))
+		return cx.ClassesString(classesAnySize(r, gr.N))
 	case 1:
 		return cx.ClassesString(shapeClasses(r, gr))
 	}
